@@ -67,7 +67,8 @@ func zzEstForest() []*zzTree {
 		zzG(ie.CreateFAR, zzT(ie.NewFARID(1)), zzT(ie.NewApplyAction(2)),
 			zzG(ie.ForwardingParameters, zzT(ie.NewDestinationInterface(ie.DstInterfaceAccess)), zzT(ie.NewOuterHeaderCreation(0x0100, 1, "10.0.0.1", "", 0, 0, 0)))),
 		zzG(ie.CreateQER, zzT(ie.NewQERID(1)), zzT(ie.NewGateStatus(0, 0)), zzT(ie.NewQFI(9))),
-		zzG(ie.CreateURR, zzT(ie.NewURRID(1)), zzT(ie.NewMeasurementMethod(0, 1, 0)), zzT(ie.NewReportingTriggers(0x02, 0)), zzT(ie.NewVolumeThreshold(1, 1000, 0, 0))),
+		// periodic and volume-threshold reporting
+		zzG(ie.CreateURR, zzT(ie.NewURRID(1)), zzT(ie.NewMeasurementMethod(0, 1, 0)), zzT(ie.NewReportingTriggers(0x03, 0)), zzT(ie.NewMeasurementPeriod(60*time.Second)), zzT(ie.NewVolumeThreshold(1, 1000, 0, 0))),
 		zzG(ie.CreateBAR, zzT(ie.NewBARID(1))),
 		zzG(ie.CreatePDR, zzT(ie.NewPDRID(1)), zzT(ie.NewPrecedence(1)), zzT(ie.NewFARID(1)), zzT(ie.NewQERID(1)), zzT(ie.NewURRID(1)),
 			zzG(ie.PDI, zzT(ie.NewSourceInterface(ie.SrcInterfaceCore)), zzT(ie.NewUEIPAddress(2, "10.60.0.1", "", 0, 0)),
@@ -158,6 +159,10 @@ func zzC07Missing(gtp5g bool, k int) {
 	}
 	got, err := lp.s.lnode.Sess(1)
 	zzAssert("C07.missing.bystander-intact", err == nil && got == by && len(by.FARIDs) == 1)
+	if gtp5g {
+		// a periodic timer registered without a positive period ends the process in the timer server
+		zzAssert("C07.missing.no-timer-without-period", forwarder.ZZPerioNonPositive() == 0)
+	}
 	lp.stop()
 	zzCover("C07.missing.done")
 }
